@@ -212,6 +212,7 @@ class Env(object):
         self.short_writes = 0      # budget of injected short writes (environment answer)
         self.short_writes_done = 0
         self.write_cap = {}        # fd -> most bytes one write() hands over
+        self.no_real_write = set() # fds whose writes are recorded in `sent` only
         self.log = []              # trace of (virtual time, event)
         self.points = 0
         self.core_dumps = False
@@ -607,7 +608,10 @@ class OsProxy(object):
                 env.short_writes -= 1
                 env.short_writes_done += 1
                 data = bytes(data)[:max(1, len(data) // 2)]
-        n = _os.write(fd, data)
+        if env is not None and fd in env.no_real_write:
+            n = len(data)          # the peer is modelled from the transcript alone (no kernel echo, no line discipline)
+        else:
+            n = _os.write(fd, data)
         if env is not None:
             env.sent.setdefault(fd, bytearray()).extend(bytes(data)[:n])
             if env.pump is not None:
@@ -958,11 +962,13 @@ class ThreadingProxy(object):
         return getattr(_threading, name)
 
 
-class ShortWriteFile(object):
-    """The unbuffered stdin pipe of the fake Popen; a write may be short when the environment says so."""
+class ShortWriteFile(_io.FileIO):
+    """The unbuffered stdin pipe of the fake Popen (what subprocess gives with bufsize=0); a write may be short when
+    the environment says so.  A real FileIO subclass, so that inherited methods (writelines) go through write() too."""
 
-    def __init__(self, env, f):
-        self._env, self._f = env, f
+    def __init__(self, env, fd):
+        _io.FileIO.__init__(self, fd, 'wb', closefd=True)
+        self._env = env
 
     def write(self, data):
         env = self._env
@@ -971,10 +977,7 @@ class ShortWriteFile(object):
                 env.short_writes -= 1
                 env.short_writes_done += 1
                 data = bytes(data)[:max(1, len(data) // 2)]
-        return self._f.write(data)
-
-    def __getattr__(self, name):
-        return getattr(self._f, name)
+        return _io.FileIO.write(self, data)
 
 
 class FakePopen(object):
@@ -988,7 +991,7 @@ class FakePopen(object):
         env.fds.discard(r_out)
         env.fds.discard(w_in)
         self.stdout = _io.open(r_out, 'rb', buffering=0)
-        self.stdin = ShortWriteFile(env, _io.open(w_in, 'wb', buffering=0))
+        self.stdin = ShortWriteFile(env, w_in)
         self.proc = env.procs.new()
         self.pid = self.proc.pid
         self.returncode = None
